@@ -170,9 +170,23 @@ def build(job):
         E = (p ** 12 - 1) // r
         xs = [opt.FQ12.zero(), opt.FQ12.one(), opt.FQ12([0, 1] + [0] * 10), opt.FQ12([rng.randrange(p) if i % 5 == 0 else 0 for i in range(12)]),
               opt.FQ12([rng.randrange(p) for _ in range(12)])]
-        for x in (xs if part == 0 else xs[-1:]):
+        # structured supports: monomials, subfield-like supports (w^6; even powers; multiples of 3), pairs
+        sup = [[k] for k in range(12)] + [[0, 6], [6], [0, 2, 4, 6, 8, 10], [0, 3, 6, 9], [0, 4, 8], [0, 1], [1, 7], [0, 6, 11]]
+        sup += [sorted(rng.sample(range(12), rng.randrange(2, 6))) for _ in range(6 if quick else 40)]
+        shaped = []
+        for sp in sup:
+            for one_first in (False, True):
+                cs = [0] * 12
+                for j, k in enumerate(sp):
+                    cs[k] = 1 if (one_first and j == 0) else rng.randrange(1, p)
+                shaped.append(opt.FQ12(cs))
+        rng.shuffle(shaped)
+        take = (len(shaped) // 3 + 1)
+        shaped = shaped[part * take:(part + 1) * take] if part < 3 else shaped[:take]
+        for k, x in enumerate((xs if part == 0 else xs[-1:]) + shaped):
             try:
-                t.ev(op="fe_any", m=oname, n=limbs(E), id=t.gid(opt.final_exponentiate(x)), id2=t.gid(x ** E))
+                if k < 8:
+                    t.ev(op="fe_any", m=oname, n=limbs(E), id=t.gid(opt.final_exponentiate(x)), id2=t.gid(x ** E))
                 if curve == "bls":
                     from py_ecc.optimized_bls12_381 import optimized_pairing as op
                     t.ev(op="frob", m=oname, n=limbs(p), id=t.gid(op.exp_by_p(x)), id2=t.gid(x ** p))
